@@ -772,8 +772,9 @@ def oracle_fit2(case):
 # the probe-params setter assigned several times; value kinds
 
 
-def run_setter_seq(dicts, max_order, real_object=False):
-    """assign the dictionaries one after the other to the SAME object; result of every step"""
+def run_setter_seq(dicts, max_order, real_object=False, want_final=False):
+    """assign the dictionaries one after the other to the SAME object; result of every step (and, with
+    want_final, the coefficient dictionary the object stores at the end)"""
     from quantem.diffractive_imaging.probe_models import ProbeBase, ProbePixelated
     res = []
     obj = None
@@ -801,6 +802,9 @@ def run_setter_seq(dicts, max_order, real_object=False):
             res.append({"err": 3})
         except Exception as e:  # noqa
             res.append({"err": 9, "exc": repr(e)})
+    if want_final:
+        st = (obj.probe_params if real_object else obj._probe_params) if obj is not None else {}
+        return res, {k: float(v) for k, v in st.get("aberration_coefs", {}).items()}
     return res
 
 
